@@ -561,6 +561,6 @@ def run(ctx):
                      'the test transforms what was read before deciding: files that are not empty (e.g. whitespace followed by garbage) are answered with 200 '
                      'and an empty notebook instead of an error status', x)
     from ..signatures import call_compat
-    call_compat(ctx, 'R20.11', ['nbdime.webapp.'], 'the request is answered with 500 although it is valid')
+    call_compat(ctx, 'R20.11', ['nbdime.webapp.'] if ctx.tier == 'quick' else ['nbdime.'], 'the request is answered with 500 although it is valid')
     from ..names import name_binding
-    name_binding(ctx, 'R20.12', ['nbdime.webapp.'])
+    name_binding(ctx, 'R20.12', ['nbdime.webapp.'] if ctx.tier == 'quick' else ['nbdime.'])
